@@ -1,4 +1,6 @@
 import Tumfl.Props.C19
 #print axioms Tumfl.Props.C19_ok
 #print axioms Tumfl.Props.C19_chunk
+#print axioms Tumfl.Props.C19_rejected
+#print axioms Tumfl.Props.C19_lexer_monotone
 #print axioms Tumfl.Props.C09_no_index_error
